@@ -32,6 +32,63 @@ func diffDoc(dst, src *bkl.Document) (any, error) {
 	}
 }
 
+// reproduces reports whether layering patch over src with bkl's own merge
+// rules yields exactly dst.
+func reproduces(src, patch, dst any) bool {
+	if patch == nil {
+		return reflect.DeepEqual(src, dst)
+	}
+
+	p, err := bkl.New()
+	if err != nil {
+		return false
+	}
+
+	base := bkl.NewDocumentWithData("base", cloneTree(src))
+
+	err = p.MergeDocument(base)
+	if err != nil {
+		return false
+	}
+
+	layer := bkl.NewDocumentWithData("layer", cloneTree(patch))
+	layer.AddParents(base)
+
+	err = p.MergeDocument(layer)
+	if err != nil {
+		return false
+	}
+
+	docs := p.Documents()
+
+	return len(docs) == 1 && reflect.DeepEqual(docs[0].Data, dst)
+}
+
+func cloneTree(v any) any {
+	switch v2 := v.(type) {
+	case map[string]any:
+		ret := make(map[string]any, len(v2))
+
+		for k, v3 := range v2 {
+			ret[k] = cloneTree(v3)
+		}
+
+		return ret
+
+	case []any:
+		ret := make([]any, len(v2))
+
+		for i, v3 := range v2 {
+			ret[i] = cloneTree(v3)
+		}
+
+		return ret
+
+	default:
+		return v
+	}
+}
+
 func diff(dst, src any) (any, error) {
 	switch dst2 := dst.(type) {
 	case map[string]any:
@@ -73,6 +130,16 @@ func diffMapMap(dst, src map[string]any) (any, error) {
 		v3, err := diff(v, v2)
 		if err != nil {
 			return nil, err
+		}
+
+		if !reproduces(v2, v3, v) {
+			// This key cannot be patched in place (its value changes kind
+			// in a way a plain override does not allow): replace the whole
+			// map instead.
+			ret = maps.Clone(dst)
+			ret["$replace"] = true
+
+			return ret, nil
 		}
 
 		if v3 != nil {
@@ -140,6 +207,21 @@ outer2:
 			dst = append(dst, map[string]any{"$replace": true})
 			return dst, nil
 		}
+	}
+
+	var patch any
+	if len(ret) > 0 {
+		patch = ret
+	}
+
+	if !reproduces(src, patch, dst) {
+		// Entry-by-entry patching cannot express this edit (reordered or
+		// duplicated entries, or a removed entry that also matches a kept
+		// one): replace the whole list.
+		dst = slices.Clone(dst)
+		dst = append(dst, map[string]any{"$replace": true})
+
+		return dst, nil
 	}
 
 	if len(ret) == 0 {
